@@ -266,7 +266,7 @@ def configs(cfgs: List[dict], tier: str) -> List[dict]:
                         "maxiters": c["maxiters"], "stoptol": rr.choice([0.0, 1e-4]), "printitn": rr.choice([0, 1, 2]),
                         "fixsigns": rr.choice([False, True]), "init": init,
                         "dtype": rr.choice(["float", "float", "int", "int8"]) if kind in ("dense", "sparse") else "float",
-                        "scale2": rr.choice([0, 0, -40, 30])})
+                        "scale2": rr.choice([0, 0, -40, 30, -70])})
             i += 1
     return out
 
